@@ -420,9 +420,9 @@ def replay(ctx, rp):
         first = json.loads(seg[0])
     except Exception:
         first = {}
-    directed = ("handover", "quitrace", "retiring", "multi")
+    directed = ("handover", "quitrace", "syncwait", "retiring", "multi")
     kind = first.get("sc") if first.get("sc") in directed else first.get("kind", "")
-    kinds = {"per": ["handover", "quitrace", "per"], "handover": ["handover"], "quitrace": ["quitrace"], "bulk": ["bulk"],
+    kinds = {"per": ["handover", "quitrace", "syncwait", "per"], "handover": ["handover"], "quitrace": ["quitrace"], "syncwait": ["syncwait"], "bulk": ["bulk"],
              "chunk": ["chunk"], "retiring": ["retiring"], "multi": ["multi"]}.get(kind, list(directed) + ["per", "bulk", "chunk"])
     if kind in CLIENTS:
         c = CLIENTS[kind]
